@@ -362,6 +362,15 @@ theorem hc_outcomes (lrs : List LR) (hw : WellIds lrs) (hne : lrs ≠ []) (C : N
     · right; left; rw [h]
     · right; right; rw [h]
 
+/-- **hc_perm**: every reordering step (`attempt_bottleneck_fix`, one or two swaps) keeps `indices` a
+    permutation of `0..n-1`, in every state the search loop can be in (`FixPre`). -/
+theorem hc_perm (lrs : List LR) (hw : WellIds lrs) (dyn : Array Dyn) (run : Nat → Nat)
+    (pre : FixPre lrs.length dyn run) (indices : List Nat) (hperm : indices.Perm (List.range lrs.length))
+    (stuck : Nat) (draws : List Nat) (ind' : List Nat) (d' : List Nat)
+    (h : hcFix (mkInfos lrs) dyn indices stuck draws = .ok (ind', d')) :
+    ind'.Perm (List.range lrs.length) :=
+  (sat_of_eq (hcFix_sat lrs hw dyn run pre indices hperm stuck draws)).2 _ h
+
 /-- `hc_no_randint_error` is **false of the unchanged code**: `attempt_bottleneck_fix` can reach
     `random.randint(0, len(turn_list) - 2)` with a single entry in `turn_list` (stale `turn`
     numbers left by an aborted `allocate_indices` coincide) and dies with ValueError.  Five valid
@@ -407,6 +416,10 @@ example : WellIds [⟨1, 2, 32, 16, 0, 0⟩, ⟨2, 2, 48, 16, 1, 1⟩, ⟨0, 1, 
   | 1, _ => rfl
   | 2, _ => rfl
   | 3, _ => rfl
+
+/-- the hypotheses of `hc_outcomes` are met by that instance (`C = 64`) -/
+example : ∀ lr ∈ ([⟨1, 2, 32, 16, 0, 0⟩, ⟨2, 2, 48, 16, 1, 1⟩, ⟨0, 1, 16, 16, 2, 2⟩, ⟨0, 0, 48, 16, 3, 3⟩] : List LR),
+    lr.size + lr.align ≤ 64 ∧ 0 < lr.align := by decide
 
 example : hcTotal [⟨1, 2, 32, 16, 0, 0⟩, ⟨2, 2, 48, 16, 1, 1⟩, ⟨0, 1, 16, 16, 2, 2⟩, ⟨0, 0, 48, 16, 3, 3⟩]
     [48, 0, 0, 16] = 80 := by decide
